@@ -211,8 +211,27 @@ class Gen(object):
             self.leaf(ind, in_loop)
 
     def call_child(self, ind):
-        if self.cur_fn >= self.nchildren or self.in_module:
+        if self.in_module:
             self.emit(ind, "pass")
+            return
+        if self.cur_fn >= self.nchildren or self.rng.random() < 0.25:
+            # bounded recursion: two live activations of one code object, possibly in different
+            # states (one inside a with body, the other exiting it)
+            j = self.cur_fn
+            if self.mode == "running":
+                call = {"sync": "f%d()", "gen": "for _x in f%d(): pass", "coro": "await f%d()",
+                        "agen": "async for _x in f%d(): pass"}[self.kind] % j
+            elif self.kind == "coro":
+                call = "await f%d()" % j
+            elif self.kind == "gen":
+                call = "yield from f%d()" % j
+            else:
+                self.emit(ind, "if RECUR():")
+                self.emit(ind + 1, "async for _x in f%d():" % j)
+                self.emit(ind + 2, "yield _x")
+                return
+            self.emit(ind, "if RECUR():")
+            self.emit(ind + 1, call)
             return
         j = self.rng.randrange(self.cur_fn + 1, self.nchildren + 1)
         if self.mode == "running":
